@@ -660,7 +660,10 @@ def nontrivial(acts):
 
 
 # ------------------------------------------------------------ the file path
-ACCOUNT_OPTS = [(None, None), (".", ""), ("TFSA", "TFSA"), ("12345678", "12345678"), ("margin", "margin"), ("RRSP 777", "RRSP 777")]
+# (regex given to --account, the literal substring it is equivalent to on the generated "{type} {number}" account strings)
+ACCOUNT_OPTS = [(None, None), (".", ""), ("TFSA", "TFSA"), ("12345678", "12345678"), ("margin", "margin"), ("RRSP 777", "RRSP 777"),
+                ("^Individual margin", "Individual margin"), ("^Joint Margin 99990004$", "Joint Margin 99990004"),
+                ("^Family", "Family"), ("0005$", "0005"), ("^Spousal rrsp 1110005$", "Spousal rrsp 1110005")]
 SECURITY_OPTS = [(None, None), (None, None), ("FOO", "FOO"), ("USD", "USD"), ("TO", "TO"), ("X", "X")]
 
 
